@@ -133,9 +133,12 @@ def classify(meta, res, gen_text):
         else:
             out['infra'].append(rec)
     out['item_tags'] = {k: sorted(v) for k, v in item_tags.items()}
-    out['verified'] = j['verification-results']['verified'] if j else 0
-    out['errors'] = j['verification-results']['errors'] if j else -1
-    out['success'] = bool(j and j['verification-results'].get('success'))
+    vr = (j or {}).get('verification-results') or {}
+    out['verified'] = vr.get('verified', 0)
+    out['errors'] = vr.get('errors', -1)
+    out['success'] = bool(vr.get('success'))
+    if j and not vr.get('success') and 'verified' not in vr and not out['compile_errors']:
+        out['compile_errors'].append({'message': 'verus stopped before verification (front-end error)', 'lines': [], 'labels': [], 'text': [], 'items': [], 'fns': []})
     fb = []
     if j:
         try:
@@ -144,8 +147,9 @@ def classify(meta, res, gen_text):
         except Exception:
             pass
     out['functions'] = fb
-    out['smt_ms'] = j['times-ms']['smt']['total'] if j and 'times-ms' in j else None
-    out['total_ms'] = j['times-ms']['total'] if j and 'times-ms' in j else None
+    tm = (j or {}).get('times-ms') or {}
+    out['smt_ms'] = (tm.get('smt') or {}).get('total')
+    out['total_ms'] = tm.get('total')
     out['verus_version'] = j['verus'].get('version') if j and 'verus' in j else None
     return out
 
